@@ -82,6 +82,8 @@ def run(ctx: core.Ctx):
             ctx.fail("lroo", dict(data=s if len(s) <= 64 else dict(n=len(s), ones=int(sum(s)), longest_run=lr)),
                      got, want, note="lroo must equal the longest run of ones (>=2, else 0), without wrapping")
 
+    from .. import strided
+    strided.probe(ctx, "a non-contiguous view of an argument gives exactly the result of its contiguous copy (the kernel reads the cells it was given)", only=['lroo'])
     # croo through the accessor, stored time order permuted
     rng = ctx.rng
     perm_cases = []
